@@ -19,7 +19,8 @@ import (
 // ---- C07: block signatures ------------------------------------------------------------
 
 // refSignature is written from services/api/app/models/blob.rb:
-//   OpenSSL::HMAC.hexdigest('sha1', key, [blob_hash, api_token, timestamp_hex, ttl_hex].join('@'))
+//
+//	OpenSSL::HMAC.hexdigest('sha1', key, [blob_hash, api_token, timestamp_hex, ttl_hex].join('@'))
 func refSignature(key, hash, token, expHex string, ttl time.Duration) string {
 	m := hmac.New(sha1.New, []byte(key))
 	m.Write([]byte(strings.Join([]string{hash, token, expHex, strconv.FormatInt(int64(ttl/time.Second), 16)}, "@")))
